@@ -245,6 +245,11 @@ def hEvent (e : HEnv) (st : HState) (ev : String) : HState := Id.run do
       | [k, neg, ch] =>
         lastAtomAllowsUpdate { negative := neg = "1", kind := kindOfNat (k.toNat?.getD 0), needleRep := .unicode,
                                needle := [hexVal! ch], ignoreCase := false, normalize := false }
+      | [k, neg, ch, oldKeeps, newKeeps] =>
+        -- the last atom must also keep normalizing haystack characters if it did before the edit
+        lastAtomAllowsUpdate { negative := neg = "1", kind := kindOfNat (k.toNat?.getD 0), needleRep := .unicode,
+                               needle := [hexVal! ch], ignoreCase := false, normalize := false } &&
+          !(oldKeeps = "1" && newKeeps = "0")
       | _ => true
     let old := s.colStatus.getD col .unchanged
     let new : PStatus := if append && old != .rescore && lastOk then .update else .rescore
